@@ -312,6 +312,8 @@ class FieldHandler:
         self._report_unexpected_argument(field)
         if not self.return_desc:
             self.return_desc = ReturnDesc()
+        if self.return_desc.body is not None:
+            field.report('Return value was already documented')
         self.return_desc.body = field.format()
     handle_returns = handle_return
 
@@ -319,6 +321,8 @@ class FieldHandler:
         self._report_unexpected_argument(field)
         if not self.yields_desc:
             self.yields_desc = FieldDesc()
+        if self.yields_desc.body is not None:
+            field.report('Yielded value was already documented')
         self.yields_desc.body = field.format()
     handle_yields = handle_yield
 
@@ -326,6 +330,8 @@ class FieldHandler:
         self._report_unexpected_argument(field)
         if not self.return_desc:
             self.return_desc = ReturnDesc()
+        if self.return_desc.type_origin is FieldOrigin.FROM_DOCSTRING:
+            field.report('Return type was already documented')
         self.return_desc.type = field.format()
         self.return_desc.type_origin = FieldOrigin.FROM_DOCSTRING
     handle_rtype = handle_returntype
@@ -334,6 +340,8 @@ class FieldHandler:
         self._report_unexpected_argument(field)
         if not self.yields_desc:
             self.yields_desc = FieldDesc()
+        if self.yields_desc.type is not None:
+            field.report('Yield type was already documented')
         self.yields_desc.type = field.format()
     handle_ytype = handle_yieldtype
 
@@ -411,6 +419,9 @@ class FieldHandler:
             #       inconsistencies.
             name = field.arg
         if name is not None:
+            previous = self.types.get(name)
+            if previous is not None and previous.origin is FieldOrigin.FROM_DOCSTRING:
+                field.report('Type of parameter "%s" was already documented' % (name,))
             self.types[name] = ParamType(field.format(), origin=FieldOrigin.FROM_DOCSTRING)
 
     def handle_param(self, field: Field) -> None:
@@ -427,6 +438,8 @@ class FieldHandler:
     def handle_keyword(self, field: Field) -> None:
         name = self._handle_param_name(field)
         if name is not None:
+            if any(desc.name == name for desc in self.parameter_descs):
+                field.report('Parameter "%s" was already documented' % (name,))
             # TODO: How should this be matched to the type annotation?
             self.parameter_descs.append(KeywordDesc(name=name, body=field.format()))
             if name in self.types:
